@@ -75,6 +75,7 @@ type mtr struct {
 	env     map[types.Object]interface{} // pure locals -> expr
 	regs    map[types.Object]int         // rmw locals -> register
 	nregs   int
+	multi   map[types.Object]bool // locals of the package assigned other than by their definition, or whose address is taken (lazily)
 }
 
 // findMetricsVars: the metrics state of a package, by role: package-level variables declared in the package, of
@@ -1315,6 +1316,51 @@ func (t *mtr) inline(s ast.Stmt, call *ast.CallExpr, fd *ast.FuncDecl, ctx inter
 	return out
 }
 
+func isIndexExpr(e ast.Expr) bool {
+	_, ok := ast.Unparen(e).(*ast.IndexExpr)
+	return ok
+}
+
+// assignedAgain: obj (a local variable) is assigned somewhere other than by the statement that defines it, or its
+// address is taken (so that it could be assigned through the pointer): it does not name one value
+func (t *mtr) assignedAgain(obj types.Object) bool {
+	if t.multi == nil {
+		t.multi = map[types.Object]bool{}
+		mark := func(e ast.Expr) {
+			if id, ok := ast.Unparen(e).(*ast.Ident); ok {
+				if o := t.p.TypesInfo.Uses[id]; o != nil { // Uses: not the defining occurrence
+					t.multi[o] = true
+				}
+			}
+		}
+		for _, f := range t.p.Syntax {
+			ast.Inspect(f, func(n ast.Node) bool {
+				switch x := n.(type) {
+				case *ast.AssignStmt:
+					for _, l := range x.Lhs {
+						mark(l)
+					}
+				case *ast.IncDecStmt:
+					mark(x.X)
+				case *ast.RangeStmt:
+					if x.Key != nil {
+						mark(x.Key)
+					}
+					if x.Value != nil {
+						mark(x.Value)
+					}
+				case *ast.UnaryExpr:
+					if x.Op == token.AND {
+						mark(x.X)
+					}
+				}
+				return true
+			})
+		}
+	}
+	return t.multi[obj]
+}
+
 // deferredUnlock: s is `defer g.M.Unlock()`
 func (t *mtr) deferredUnlock(s ast.Stmt) (field string, ok bool) {
 	ds, isD := s.(*ast.DeferStmt)
@@ -1322,10 +1368,10 @@ func (t *mtr) deferredUnlock(s ast.Stmt) (field string, ok bool) {
 		return "", false
 	}
 	m, f, ok := t.lockCall(&ast.ExprStmt{X: ds.Call})
-	if !ok || m != "Unlock" {
-		return "", false
+	if ok && m == "Unlock" {
+		return f, true
 	}
-	return f, true
+	return "", false
 }
 
 // block: retOK = stmts is the whole body of an inlined callee (a trailing `return`, and `return` inside a trailing
@@ -1353,6 +1399,23 @@ func (t *mtr) block(stmts []ast.Stmt, ctx interface{}, locked string, retOK bool
 						}
 						t.alias[t.p.TypesInfo.Defs[lid]] = robj
 						continue
+					}
+				}
+			}
+		}
+		// mu := &g.F  (a local name for the address of a field, never assigned again and never itself addressed): the
+		// local stands for the field exactly like a pointer parameter of an inlined callee
+		if as, ok := s.(*ast.AssignStmt); ok && as.Tok == token.DEFINE && len(as.Lhs) == 1 && len(as.Rhs) == 1 {
+			if lid, ok := as.Lhs[0].(*ast.Ident); ok {
+				rhs := ast.Unparen(as.Rhs[0])
+				_, isAddr := rhs.(*ast.UnaryExpr)
+				_, isPtrName := rhs.(*ast.Ident) // p := q for a bound pointer q
+				if obj := t.p.TypesInfo.Defs[lid]; obj != nil && (isAddr || isPtrName) && !t.assignedAgain(obj) {
+					if f, ok := t.fieldOf(rhs); ok && !isValueForm(rhs) {
+						if u, ok := rhs.(*ast.UnaryExpr); !ok || !isIndexExpr(u.X) {
+							t.ptr[obj] = f
+							continue
+						}
 					}
 				}
 			}
